@@ -14,8 +14,13 @@ import (
 
 func DecodeBitmap(img *bitmap.Image) (*QRCode, error) {
 	bounds := img.Bounds()
+	if bounds.Dx() != bounds.Dy() || bounds.Dx() < 21 || bounds.Dx() > 177 || (bounds.Dx()-17)%4 != 0 {
+		return nil, fmt.Errorf("qrcode: invalid image size: %dx%d", bounds.Dx(), bounds.Dy())
+	}
 	version := Version((bounds.Dx() - 17) / 4)
 	binimg := internalbitmap.Import(img)
+	// the function pattern tables have their origin at (0, 0).
+	binimg.Rect = binimg.Rect.Sub(binimg.Rect.Min)
 
 	level, mask, err := decodeFormat(binimg)
 	if err != nil {
